@@ -154,3 +154,15 @@ Check (C13_imports_exact_raw :
   (forall d, In d out <-> RawClosure ds root_path root_items d) /\ NoDup out).
 Print Assumptions C13_closure_raw.
 Print Assumptions C13_imports_exact_raw.
+Check (C13_imports_sound :
+  forall st root_path root ds,
+  resolve_imports st root_path root = inr ds ->
+  forall d, In d ds ->
+    Closure st root_path root d /\ (In d (fdefs root) \/ def_is_frag d = true)).
+Print Assumptions C13_imports_sound.
+Check (C13_linear_work :
+  forall st root_path root ds,
+  resolve_imports st root_path root = inr ds ->
+  exists tr : list entry,
+    ds = fdefs root ++ tr_defs tr /\ NoDup (map ekey tr) /\ length tr <= length st).
+Print Assumptions C13_linear_work.
